@@ -210,4 +210,42 @@ def run(ctx):
     bad3 = sorted(set(x[1] for x in st3 if x[1]))
     ctx.check(bool(st3) and all(x[0] for x in st3) and not bad3, 'R3', 'update(): the energy of the elapsed interval is added before pstate_ is re-saved, and pstate_ is re-saved on every path', where(upf),
               bad3[0] if bad3 else ('' if all(x[0] for x in st3) else 'a path leaves update() without saving the pstate of the next interval'), key='R3|update|price then re-save')
+    run_update_guards(ctx, P, A)
     return EXPLANATION
+
+
+def run_update_guards(ctx, P, A):
+    """R4: a callback may skip the update only for a reason that does not depend on the state being accounted"""
+    ctx.rule('R4', 'in the signal callbacks of the energy plugins, update() is conditioned only by what the event is about (a non-null host/link, a single-host execution, '
+             'a non-WIFI link, a VM mapped to its physical machine) or by "already updated at this date"; never by the load, the pstate or any other state of the '
+             'resource whose energy is accounted: the interval before the event must be closed at the old power whatever that state is', 5)
+    OK_CALLS = ('get_host_number', 'get_sharing_policy', 'get_last_update_time', 'get_clock', 'get_pm', 'get_host', 'extension', 'operator->', 'get', 'get_cpu', 'get_iface')
+    n = 0
+    for f in sorted(P.fns.values(), key=lambda f: f['key']):
+        if not f.get('blocks') or not f['file'].endswith(('host_energy.cpp', 'link_energy.cpp')) or f['q'].startswith(('simgrid::plugin::HostEnergy::', 'simgrid::plugin::LinkEnergy::')):
+            continue
+        if f['q'].startswith(('sg_host_get_', 'sg_link_get_', 'sg_host_energy_update_all')):
+            continue          # queries bring the account up to date by themselves
+        v = A.view(f)
+        for eid in range(len(f['elems'])):
+            for e in v.events_of(eid):
+                if not (e.kind == 'call' and e.eid == eid and e.q.endswith(('HostEnergy::update', 'LinkEnergy::update'))):
+                    continue
+                n += 1
+                IN, tgt, _ = lib.dominating_facts(A, f, f['elems'][eid]['x'], with_lines=True, with_preds=True)
+                extra = []
+                for a, t_, l_ in IN.get(tgt, ()):
+                    subs = list(ex.subterms(a))
+                    if not any(x[0] in ('var', 'field', 'call', 'this') for x in subs):
+                        continue
+                    if '__begin' in repr(a) and '__end' in repr(a):
+                        continue
+                    calls = [x[1].rsplit('::', 1)[-1] for x in subs if x[0] == 'call']
+                    if all(c in OK_CALLS for c in calls) and not any(x[0] == 'field' for x in subs):
+                        continue
+                    extra.append('%s%s' % ('' if t_ else '!', ex.pretty(a)))
+                short = f['q'].split('::<lambda')[0] + (' (callback at line %s)' % f['line'] if '<lambda' in f['q'] else '')
+                ctx.check(not extra, 'R4', '%s: update() at line %s is not conditioned by the state of the resource' % (short, e.line), where(f, e.line),
+                          ('update() is skipped unless %s: the interval that ends at this event is later charged at the power that follows the event' % ', '.join(sorted(extra))) if extra else 'guards: kind of event only',
+                          key='R4|%s|update guards' % f['q'].split('::<lambda')[0])
+    ctx.require(n >= 4, 'R4', 'only %d update() call(s) found in the callbacks of the energy plugins' % n)
